@@ -26,7 +26,8 @@ func init() {
 			"R5 in DNSHandler.handle the resolver error edge returns only SetRcodeWithEDE(SERVFAIL, ErrorToEDE(err)) and the resolver's message is returned only on the nil-error edge; " +
 			"R6 both definitions of ResponseWriter.noad equal CD ∨ (¬AD ∧ ¬DO); the edns writer reaches its delegate only with AD cleared or noad=false (also when truncating); the four cache serving functions clear AD toward CD=1; locally synthesised AD=1 replies are built only on the CD=0 edge; " +
 			"R7 cryptoVerify/runSignatureVerification/verifySignature have exactly one caller each, the signature math lies behind the validity-period, algorithm and RRset-binding preflight and uses only usableSignatureCandidate-filtered keys, every in-zone RRset needs a verifying signature before the next one is considered, out-of-zone answer records are fatal before any signature work, and the no-work verifier entry points have no production caller; " +
-			"R8 (added while reading) the upstream AD bit is reset before any validator runs, the validators are called only from the resolution loop, and resolve() hands back a message that did not pass answer()/authority() only for CD=1, validation off, a proven-unsigned verdict, or (upstream message) rcode != NXDOMAIN — on today's tree this clause reports two sites (F-C01-1, F-C01-2: bare NXDOMAIN / empty NOERROR under a signed chain served instead of SERVFAIL).",
+			"R8 (added while reading) the upstream AD bit is reset before any validator runs, the validators are called only from the resolution loop, and resolve() hands back a message that did not pass answer()/authority() only for CD=1, validation off, a proven-unsigned verdict, or (upstream message) rcode != NXDOMAIN — on today's tree this clause reports two sites (F-C01-1, F-C01-2: bare NXDOMAIN / empty NOERROR under a signed chain served instead of SERVFAIL). " +
+			"R10 (round 2) in composeWireChase every path through an iteration of the segment loop folds that segment's stored AD bit into the running verdict (no side condition lets an AD=0 hop go unnoticed); R11 (round 2) the DNAME set that excuses a synthesised CNAME from carrying an RRSIG is built only from records tested to lie in the signer zone, so what vouches for the exemption is itself verified.",
 		NotDecided: []string{
 			"that a verified signature is mathematically valid over the right canonical bytes (C14)",
 			"that findDS / isZoneSecure / provenInsecureDelegation walk the right chain for every topology (opt-out, shared parent/child servers, key-tag collisions) — value-level decisions over zone data",
@@ -52,6 +53,8 @@ func runC01(c *Ctx) {
 	c01R6(c)
 	c01R7(c)
 	c01R8(c)
+	c01R10(c)
+	c01R11(c)
 }
 
 // ---------------------------------------------------------------------------
@@ -127,41 +130,22 @@ func c01R1(c *Ctx) {
 			c.ok(R, key, instrPos(s.Instr), "WireInfo.AuthenticatedData ← parameter authData (callers checked below)")
 		}},
 		"middleware/cache.composeWireChase": {check: func(s Site, e *Expr, key string) {
-			ok, bad := c01AllLeaves(e, IsAnyConst, FieldIs(segAD))
-			if !ok || !c01SomeLeaf(e, FieldIs(segAD)) {
-				c.violation(R, key, instrPos(s.Instr), "merged AD is not a fold over the segments' stored AD bits: "+strings.Join(bad, " ; ")+" {"+c01LeafStrings(e)+"}")
+			accs, other := c01FoldLeaves(s.Val)
+			if len(other) > 0 || len(accs) == 0 {
+				what := "no running verdict carried around the segment loop"
+				if len(other) > 0 {
+					what = trunc(Desc(other[0]).String(), 160)
+				}
+				c.violation(R, key, instrPos(s.Instr), "merged AD is not a fold over the segments' stored AD bits: "+what)
 				return
 			}
-			// the fold is a conjunction: wherever a segment's bit joins the running value, the short-circuit constant is false
-			var orShape *Expr
-			var walk func(x *Expr, d int)
-			seenE := map[*Expr]bool{}
-			walk = func(x *Expr, d int) {
-				if x == nil || seenE[x] || d > 40 {
+			for _, a := range accs {
+				if bad := c01CheckFold(c, a, segAD); bad != "" {
+					c.violation(R, key, instrPos(s.Instr), "merged AD is not a conjunction of the segments' AD bits: "+bad)
 					return
 				}
-				seenE[x] = true
-				if x.K == EPhi || x.K == EAlloc {
-					hasSeg := false
-					for _, a := range x.Args {
-						if FieldIs(segAD)(a) {
-							hasSeg = true
-						}
-					}
-					for _, a := range x.Args {
-						if hasSeg && IsConstBool(true)(a) {
-							orShape = x
-						}
-						walk(a, d+1)
-					}
-				}
 			}
-			walk(e, 0)
-			if orShape != nil {
-				c.violation(R, key, instrPos(s.Instr), "merged AD is not a conjunction of the segments' AD bits (a segment's bit is joined with the constant true): "+trunc(orShape.String(), 200))
-				return
-			}
-			c.ok(R, key, instrPos(s.Instr), "merged AD ← conjunction over wireChaseSegment.ad")
+			c.ok(R, key, instrPos(s.Instr), "merged AD ← conjunction over wireChaseSegment.ad (shape-independent fold check, see R10)")
 		}},
 	}
 	var sites []Site
@@ -810,9 +794,14 @@ func c01R6(c *Ctx) {
 		}
 	}
 	if fn := c.fn(R, "middleware/cache.composeWireChase"); fn != nil {
+		// any value built only from the segment loop's running verdict (that the verdict is a proper fold is R1/R10)
 		merged := func(e *Expr) bool {
-			ok, _ := c01AllLeaves(e, IsAnyConst, FieldIs(segAD))
-			return ok && c01SomeLeaf(e, FieldIs(segAD))
+			e = strip(e)
+			if e == nil || e.V == nil {
+				return false
+			}
+			accs, other := c01FoldLeaves(e.V)
+			return len(accs) > 0 && len(other) == 0
 		}
 		c.MustCross(R, fn, "success return", okRet, CallBarrier("wire.ClearAD", clearAD), cdOff, OnFalse("merged AD", merged))
 	}
